@@ -532,3 +532,30 @@ for _pid, _rid in (("C04", "R04.3"), ("C02", "R02.3")):
 for _pid, _rid in (("C03", "R03.9"), ("C04", "R04.3"), ("C02", "R02.3")):
     V(_pid, "image-label difference of the correction reversed (3D builder)", _rid, (PFD, _DOT_OLD, _DOT_OLD.replace("(-np.array(node_factor) + np.array(i_factor)), orig_cell", "(np.array(node_factor) - np.array(i_factor)), orig_cell")))
     V(_pid, "twin: image-label difference written neighbour minus node", "silent", (PFD, _DOT_OLD, _DOT_OLD.replace("(-np.array(node_factor) + np.array(i_factor)), orig_cell", "(np.array(i_factor) - np.array(node_factor)), orig_cell")))
+
+# ------------------------------------------------------------------------------------------ rules that came out of the mutation audit
+V("C12", "memo guard of get_primitive_system inverted", "R12.5", (SYM, "        if self._primitive_system is not None:\n            return self._primitive_system", "        if self._primitive_system is None:\n            return self._primitive_system"))
+V("C18", "+d finding lowered instead of raised", "R18.6", (LUN, "                        positive = True\n", "                        positive = False\n"))
+V("C18", "-d finding starts raised", "R18.6", (LUN, "                negative = False\n", "                negative = True\n"))
+for _pid, _rid in (("C17", "R17.2"), ("C18", "R18.3")):
+    V(_pid, "coverage OR periodicity suffices for Surface / Material2D", _rid, (CLS, "                if covered and region_is_periodic:", "                if covered or region_is_periodic:"))
+    V(_pid, "twin: coverage and periodicity tested in nested ifs", "silent", (CLS, "                if covered and region_is_periodic:\n                    if best_region.is_2d:\n                        classification = Material2D(input_system, best_region)\n                    else:\n                        classification = Surface(input_system, best_region)\n",
+      "                if covered:\n                    if region_is_periodic:\n                        if best_region.is_2d:\n                            classification = Material2D(input_system, best_region)\n                        else:\n                            classification = Surface(input_system, best_region)\n"))
+for _pid, _rid in (("C17", "R17.7"), ("C18", "R18.7")):
+    V(_pid, "validation of the default seed_position inverted", _rid, (CLS, "            if seed_position == \"cm\":", "            if seed_position != \"cm\":"))
+for _pid, _rid in (("C04", "R04.4"), ("C18", "R18.8")):
+    V(_pid, "reduced cell does not raise the two-span flag", _rid, (PFD, "                    two_valid_spans = True\n", "                    two_valid_spans = False\n"))
+for _pid, _rid in (("C11", "R11.4"), ("C04", "R04.6")):
+    V(_pid, "material id asks for the sets with parameters", _rid, (SYM, "wyckoff_sets = self.get_wyckoff_sets_conventional(False)", "wyckoff_sets = self.get_wyckoff_sets_conventional(True)"))
+    V(_pid, "twin: material id passes return_parameters by keyword", "silent", (SYM, "wyckoff_sets = self.get_wyckoff_sets_conventional(False)", "wyckoff_sets = self.get_wyckoff_sets_conventional(return_parameters=False)"))
+V("C13", "radii forwarded exactly when the cluster has none", "R13.2", (CLU, "            if self._radii is not None:", "            if self._radii is None:"))
+for _pid, _rid in (("C04", "R04.3"), ("C02", "R02.3")):
+    V(_pid, "3D builder accepts only the node itself as +span neighbour", _rid, (PFD, "                    if a_add_neighbour != node_index:\n                        a_final_neighbour = a_add_neighbour\n                        i_factor = i_add_factor\n                        multiplier = 1\n                elif a_sub:\n                    a_sub_neighbour, i_sub_factor = a_sub[0]\n                    if a_sub_neighbour != node_index:\n                        a_final_neighbour = a_sub_neighbour\n                        i_factor = i_sub_factor\n                        multiplier = -1\n\n                if a_final_neighbour is not None:\n                    a_correction = np.dot(\n                        (-np.array(node_factor) + np.array(i_factor)), orig_cell\n                    )\n                    displacement = positions[a_final_neighbour] - positions[node_index]\n                    a = displacement",
+      "                    if a_add_neighbour == node_index:\n                        a_final_neighbour = a_add_neighbour\n                        i_factor = i_add_factor\n                        multiplier = 1\n                elif a_sub:\n                    a_sub_neighbour, i_sub_factor = a_sub[0]\n                    if a_sub_neighbour != node_index:\n                        a_final_neighbour = a_sub_neighbour\n                        i_factor = i_sub_factor\n                        multiplier = -1\n\n                if a_final_neighbour is not None:\n                    a_correction = np.dot(\n                        (-np.array(node_factor) + np.array(i_factor)), orig_cell\n                    )\n                    displacement = positions[a_final_neighbour] - positions[node_index]\n                    a = displacement"))
+    V(_pid, "2D builder subtracts the periodic-image correction", _rid, (PFD, "                    a = multiplier * displacement + a_correction\n", "                    a = multiplier * displacement - a_correction\n"))
+    V(_pid, "twin: 2D builder written in the 3D form", "silent", (PFD, "                    a = multiplier * displacement + a_correction\n", "                    a = multiplier * (displacement + a_correction)\n"))
+V("C18", "neighbouring cell index = current cell minus the multiplier", "R18.6", (PFD, "target_cell = cell_index + multiplier", "target_cell = cell_index - multiplier"))
+V("C18", "seed loop stops while species are still waiting", "R18.5", (CLS, "                    if len(elems) == 0:\n                        break", "                    if len(elems) != 0:\n                        break"))
+V("C18", "twin: seed loop stops when the pool is falsy", "silent", (CLS, "                    if len(elems) == 0:\n                        break", "                    if not elems:\n                        break"))
+V("C12", "np.unique no longer returns the first positions", "R12.3", (SYM, "_, inside_mask = np.unique(conv_to_prim_map, return_index=True)", "_, inside_mask = np.unique(conv_to_prim_map, return_index=False)"))
+V("C08", "variable vector on the right of the expression matrices", "R08.2", (SYM, "first_test_pos = np.dot(W, Ms) + Cs", "first_test_pos = np.dot(Ms, W) + Cs"))
